@@ -28,13 +28,11 @@ func (c *ShipConnection) handleShipMessage(timeout bool, message []byte) {
 				// wait a bit to let it send
 				<-time.After(500 * time.Millisecond)
 
-				//
-				c.dataWriter.CloseDataConnection(4001, "close")
-				c.infoProvider.HandleConnectionClosed(c, c.getState() == model.SmeStateComplete)
+				// close and report the end of the connection exactly once
+				c.CloseConnection(false, 4001, "close")
 			case model.ConnectionClosePhaseTypeConfirm:
 				// we got a confirmation so close this connection
-				c.dataWriter.CloseDataConnection(4001, "close")
-				c.infoProvider.HandleConnectionClosed(c, c.getState() == model.SmeStateComplete)
+				c.CloseConnection(false, 4001, "close")
 			}
 
 			return
